@@ -923,3 +923,34 @@ Proof. exact init_then_verdict_raw_eq. Qed.
 
 Print Assumptions C13_rel_dict_idempotent.
 Print Assumptions C13_regenerated_init_then_verdict_equals_model_on_raw_records.
+
+(* the readers of the contracts part and of the whole configuration, for every parsed YAML map -- Lemmas/ConfigFromYamlLemmas.v *)
+From Tealer Require Import GroupConfigGenLemmas ConfigFromYamlLemmas.
+Theorem C13_from_yaml_contract_total :
+  forall m : list (string * yv), GroupConfigContract_from_yaml_gen m = contract_spec m.
+Proof. exact contract_from_yaml_spec. Qed.
+
+Theorem C13_from_yaml_config_total :
+  forall m : list (string * yv),
+  GroupConfig_from_yaml_gen m =
+  match yfind "name" m, yfind "contracts" m, yfind "groups" m with
+  | Some name, Some cs, Some gs =>
+    rbind (as_list cs) (fun l1 => rbind (mapR (fun v => rbind (as_map v) contract_spec) l1) (fun contracts =>
+    rbind (as_list gs) (fun l2 => rbind (mapR group_elem l2) (fun groups =>
+    rbind (as_str name) (fun n => Ok (mkGroupConfig n contracts groups))))))
+  | _, _, _ => Raise E_cfg_absent
+  end.
+Proof. exact config_from_yaml_total. Qed.
+
+(* neither KeyError of init_tealer_from_config (transaction type table, contract type table) can happen on a
+   configuration that from_yaml has read *)
+Theorem C13_configuration_read_has_known_types :
+  forall (m : list (string * yv)) (cfg : GroupConfig),
+  GroupConfig_from_yaml_gen m = Ok cfg ->
+  (forall grp e, In grp (gc_groups cfg) -> In e (cg_transactions grp) -> sdict_mem (ct_txn_type e) USER_CONFIG_TRANSACTION_TYPES = true) /\
+  (forall c, In c (gc_contracts cfg) -> s_in_list (cc_contract_type c) GROUP_CONFIG_CONTRACT_TYPES = true).
+Proof. exact config_known_types. Qed.
+
+Print Assumptions C13_from_yaml_contract_total.
+Print Assumptions C13_from_yaml_config_total.
+Print Assumptions C13_configuration_read_has_known_types.
